@@ -171,6 +171,11 @@ pub fn perform(quotes: &[Quote], base: &Option<String>, ops: &[Op], r: &mut Rng)
             return ev;
         }
     };
+    // a third of the histories make their calls the way Python does: through the Python-facing `update` / `set_ad_order`
+    // methods (a refusal is then a raised exception)
+    use rateslib::verif::rates_py as rpy;
+    let via_py = r.chance(0.34);
+    let via = if via_py { "py" } else { "core" };
     for op in ops {
         match op {
             Op::Update(upd) => {
@@ -178,13 +183,13 @@ pub fn perform(quotes: &[Quote], base: &Option<String>, ops: &[Op], r: &mut Rng)
                 let rates: Vec<FXRate> = upd.iter().map(|q| q.to_rate().unwrap()).collect();
                 let mut f2 = fxr.clone();
                 let res = guard(|| {
-                    let r_ = f2.update(rates);
-                    (f2, r_.is_ok())
+                    let ok = if via_py { rpy::update(&mut f2, rates).is_ok() } else { f2.update(rates).is_ok() };
+                    (f2, ok)
                 });
                 match res {
                     Outcome::Ok((f2, ok)) => {
                         fxr = f2;
-                        ev.push(json!({"op":"update","quotes":uj,"o": if ok {"ok"} else {"err"},"state":state_json(&fxr, &names, r)}));
+                        ev.push(json!({"op":"update","quotes":uj,"via":via,"o": if ok {"ok"} else {"err"},"state":state_json(&fxr, &names, r)}));
                     }
                     Outcome::Panic(_) => {
                         ev.push(json!({"op":"update","quotes":uj,"o":"panic"}));
@@ -195,13 +200,13 @@ pub fn perform(quotes: &[Quote], base: &Option<String>, ops: &[Op], r: &mut Rng)
             Op::SetOrder(o) => {
                 let mut f2 = fxr.clone();
                 let res = guard(|| {
-                    let r_ = f2.set_ad_order(ad(*o));
-                    (f2, r_.is_ok())
+                    let ok = if via_py { rpy::set_ad_order(&mut f2, ad(*o)).is_ok() } else { f2.set_ad_order(ad(*o)).is_ok() };
+                    (f2, ok)
                 });
                 match res {
                     Outcome::Ok((f2, ok)) => {
                         fxr = f2;
-                        ev.push(json!({"op":"set_order","order":o,"o": if ok {"ok"} else {"err"},"state":state_json(&fxr, &names, r)}));
+                        ev.push(json!({"op":"set_order","order":o,"via":via,"o": if ok {"ok"} else {"err"},"state":state_json(&fxr, &names, r)}));
                     }
                     Outcome::Panic(_) => {
                         ev.push(json!({"op":"set_order","order":o,"o":"panic"}));
@@ -254,6 +259,19 @@ fn rand_ops(r: &mut Rng, quotes: &[Quote], len: usize) -> Vec<Op> {
                 q.v = rand_rate(r);
                 let stranger = Quote::float("xau", &cur[i].l, rand_rate(r), cur[i].settle);
                 ops.push(Op::Update(if r.coin() { vec![q, stranger] } else { vec![stranger, q] }));
+            }
+            5 => {
+                // a known pair re-quoted for ANOTHER settlement date (or none): with other quotes around the rebuilt market is
+                // inconsistent and the update must be refused, leaving nothing behind - what follows (order switches, further
+                // updates) must still see the old quotes; on a one-quote market it is accepted and the market moves date
+                let i = r.below(cur.len() as u64) as usize;
+                let mut q = cur[i].clone();
+                q.v = rand_rate(r);
+                q.settle = if q.settle == 0 { 20777 } else if r.coin() { 0 } else { q.settle + 3 };
+                if cur.len() == 1 {
+                    cur[i] = q.clone();
+                }
+                ops.push(Op::Update(vec![q]));
             }
             _ => ops.push(Op::SetOrder(r.below(3) as i64)),
         }
